@@ -72,13 +72,14 @@ type Contract struct {
 	Uses      []string // callback contracts: caller variables visible to the contract
 	Interf    []string // locations other goroutines may change while the call blocks (lock acquisition)
 	Sites     map[string][]*SiteAnn
-	Assumed   []string    // free-text assumptions made by this contract (listed in evidence)
-	NoNilFn   bool        // function values called in the body are assumed non-nil (recorded in Assumed)
-	NoFrame   bool        // the modifies clause is used at call sites but not checked against the body
-	ChecksPub bool        // element writes are checked against the publication typestate (functions that fill the shared caches)
-	NoSafety  bool        // the zero-annotation no-panic sweep is not run for this function (recorded in Assumed)
-	Immutable []string    // parameters (receivers) whose fields the body must not write (C15)
-	Given     []GhostDecl // scenario contracts (key "func@name"): universally quantified scenario variables
+	Assumed   []string             // free-text assumptions made by this contract (listed in evidence)
+	NoNilFn   bool                 // function values called in the body are assumed non-nil (recorded in Assumed)
+	NoFrame   bool                 // the modifies clause is used at call sites but not checked against the body
+	ChecksPub bool                 // element writes are checked against the publication typestate (functions that fill the shared caches)
+	NoSafety  bool                 // the zero-annotation no-panic sweep is not run for this function (recorded in Assumed)
+	StoreAnns map[string][]*Clause // "after-store <global> assert e": checked right after the package variable is assigned
+	Immutable []string             // parameters (receivers) whose fields the body must not write (C15)
+	Given     []GhostDecl          // scenario contracts (key "func@name"): universally quantified scenario variables
 }
 
 // SiteAnn is an annotation attached to the k-th call (source order) whose callee expression reads Text.
@@ -368,6 +369,20 @@ func (ss *SpecSet) parseFile(path string, dep bool) error {
 			case "nosafety":
 				cur.NoSafety = true
 				cur.Assumed = append(cur.Assumed, "no-panic sweep (bounds, type assertions, make sizes) not run for "+cur.Key+": "+strings.Trim(rest, `"`))
+			case "after-store":
+				f := strings.SplitN(rest, " ", 3)
+				if len(f) < 3 || f[1] != "assert" {
+					return fmt.Errorf("%s:%d: after-store <global> assert expr", path, ln+1)
+				}
+				c, err := mkClause("store-assert", f[2])
+				if err != nil {
+					return err
+				}
+				if cur.StoreAnns == nil {
+					cur.StoreAnns = map[string][]*Clause{}
+				}
+				c.Ord = len(cur.StoreAnns[f[0]])
+				cur.StoreAnns[f[0]] = append(cur.StoreAnns[f[0]], c)
 			case "immutable":
 				cur.Immutable = append(cur.Immutable, splitLocs(rest)...)
 			case "given":
@@ -549,6 +564,15 @@ func (c *Contract) hasTag(tag string) bool {
 	for _, l := range c.Sites {
 		for _, a := range l {
 			for _, t := range a.Cl.Tags {
+				if t == tag {
+					return true
+				}
+			}
+		}
+	}
+	for _, l := range c.StoreAnns {
+		for _, cl := range l {
+			for _, t := range cl.Tags {
 				if t == tag {
 					return true
 				}
